@@ -345,6 +345,19 @@ class MovingWindowReduction(ArrayExpr):
         # built under a precondition on the input's block grid
         return True
 
+    def _lower(self):
+        # Same as SlidingWindowReduction._lower: the banded decomposition needs
+        # every block to be shorter than the window; restore that if a rewrite
+        # below changed the input's grid after this node was chosen.
+        chunks = self.array.chunks[self.sliding_axis]
+        if supports_native_moving_window(chunks, self.window):
+            return None
+        depth = self.window - 1
+        split = tuple(p for c in chunks for p in (depth,) * (c // depth) + ((c % depth,) if c % depth else ()))
+        if split == tuple(chunks) or not supports_native_moving_window(split, self.window):
+            return None
+        return type(self)(self.array.rechunk({self.sliding_axis: split}), *self.operands[1:])
+
     def _layer(self):
         x = self.array
         axis = self.sliding_axis
@@ -520,6 +533,20 @@ class SlidingWindowReduction(ArrayExpr):
     def _requires_grid_preservation(self, dependency):
         # built under a precondition on the input's block grid
         return True
+
+    def _lower(self):
+        # The banded decomposition needs every output-emitting block to be
+        # shorter than the window.  This node was chosen for the grid its input
+        # had then; if a rewrite below has changed that grid since, split the
+        # blocks so that the precondition holds again.
+        chunks = self.array.chunks[self.sliding_axis]
+        if supports_native_sliding_window(chunks, self.window):
+            return None
+        depth = self.window - 1
+        split = tuple(p for c in chunks for p in (depth,) * (c // depth) + ((c % depth,) if c % depth else ()))
+        if split == tuple(chunks):
+            return None
+        return type(self)(self.array.rechunk({self.sliding_axis: split}), *self.operands[1:])
 
     def _layer(self):
         x = self.array
